@@ -3,6 +3,6 @@ NEXT Next
 INVARIANTS Emit RoundTrip Normal OkFits RootKind
 CHECK_DEADLOCK FALSE
 CONSTANTS
-  Budget = 1
-  Big = FALSE
-  Types = {}
+  Budget = 2
+  Big = TRUE
+  Types = {"OUTER", "PB", "MSSA", "XSD", "SA", "BOXI"}
